@@ -108,6 +108,9 @@ def gen(rng, tier, i):
             text = 'sc %s %s %s' % (rng.choice(tags) if hk == 'x' else a, hk, _hook_script(rng, tags, st, ',', hk))
         elif cls == 'hooks' and r < 0.22:
             text = 'setcs %s;%s' % (_hook_script(rng, tags, st, ','), mk())
+        elif r < 0.30 and rng.random() < 0.1:
+            # a virtual object whose name is as long as names get (the driver prints names into fixed buffers here and there)
+            text = 'wvol %d clone %s' % (rng.choice((1500, 2030, 2040, 2043, 2044, 2045, 2100)), newtag())
         elif r < 0.30 and rng.random() < 0.35:
             # virtual objects: master::compile_object answers for a name without a file
             vn = '/v/x%d' % rng.randint(1, 3)
